@@ -37,7 +37,10 @@ static const char *keyfilename = certfilename;		/**< path to SSL key filename, d
 int
 find_servercert(const char *localport)
 {
-	const size_t oldlen = strlen(certfilename);
+	/* The names are rebuilt behind the constant prefix on every call: this
+	 * function runs once per EHLO, and a suffix appended by an earlier call
+	 * must not be extended again. */
+	const size_t oldlen = strlen("control/servercert.pem");
 	/* here we can use openat(), but the SSL functions can't,
 	 * so the directory name must still be part of certfilename,
 	 * but we can skip over it here. */
@@ -47,7 +50,7 @@ find_servercert(const char *localport)
 	/* append ".<ip>" to the normal certfilename */
 	certfilename[oldlen] = '.';
 	strncpy(certfilename + oldlen + 1, xmitstat.localip, sizeof(certfilename) - oldlen - 1);
-	assert(strlen(keyfilenamebuf) == oldlen - 1);
+	assert(strlen("control/serverkey.pem") == oldlen - 1);
 
 	if (localport != NULL) {
 		/* if we know the local port, append ":<port>" */
